@@ -6,7 +6,7 @@ CONSTANTS
   SplitByFlush = FALSE
   KeepSubs = FALSE
   FlushVaries = TRUE
-  Kinds = {"P", "S1", "A1"}
+  Kinds = {"P", "PS", "S1"}
   TTLs = {0, 2}
 INVARIANTS NeverLonger NotEarlier Present WellFormed KeysNeeded SubsNeeded
 CHECK_DEADLOCK FALSE
